@@ -4,7 +4,7 @@
 
 Reads `${VERIF_REPO:-/repo}/src/socketio/*.py` with `ast` only (nothing is imported or executed),
 writes `Reserved.lean` (C13), `Forward.lean` (C17) and `Constants.lean` (the literal constants the
-models repeat; `Sio/Props/Glue.lean`; also reads the installed engineio package).  Output is deterministic: the same source
+models repeat; `Sio/Props/Glue{Codec,Server,Reconnect}.lean`; also reads the installed engineio package).  Output is deterministic: the same source
 gives byte-identical files, and a file whose content did not change is not rewritten, so `lake`
 does not rebuild.  Writing happens under the same lock as `bin/lk`, so a concurrent build never
 sees a half-written file.
